@@ -225,7 +225,7 @@ DecGrid(ps, strict) ==
          (IF strict THEN Bad("shape_rows")
           ELSE Ok(<<18, ver, gm[2], [i \in 1..Len(cn) |-> <<cn[i], cms[i][2]>>], <<>>>>))
     ELSE IF rows[1] # 4 \/ (\E r \in 1..Len(rows[2]) : rows[2][r][1] # 5 \/ ~NoDupKeys(rows[2][r][2])
-                                                       \/ ~(KeySet(rows[2][r][2]) \subseteq names))
+                                                       \/ (strict /\ ~(KeySet(rows[2][r][2]) \subseteq names)))   \* liberal: a row key that is no column is ignored
          THEN Bad("shape_rows")
     ELSE
     LET rr == M([r \in 1..Len(rows[2]) |->
